@@ -210,8 +210,121 @@ proof! {
 	}
 }
 
+const fn parse_bits16() -> u32 {
+	parse_env(option_env!("VH_LIMBITS"), 16) as u32
+}
+
+proof! {
+	fn segment_identifier_arithmetic() {
+		// SegmentIdentifier's position arithmetic against closed forms of the MMR definition:
+		// the n-th leaf (0-based) sits at position 2n - popcount(n); an MMR of n leaves has that
+		// many positions; a full segment of height h is the perfect subtree over 2^h leaves
+		// (2^(h+1) - 1 positions, root last); the last, partial segment runs to the end of the MMR
+		let n: u64 = nd::any();
+		nd::assume(n >= 1 && n < (1u64 << parse_bits16()));
+		let size = 2 * n - n.count_ones() as u64;
+		let h: u8 = nd::any();
+		nd::assume(h <= 13);
+		let cap = 1u64 << h;
+		let idx: u64 = nd::any();
+		nd::assume(idx < (1 << 20));
+		let id = SegmentIdentifier { height: h, idx };
+		check!(id.segment_capacity() == cap, "capacity = 2^height leaves");
+		let need = SegmentIdentifier::count_segments_required(size, h) as u64;
+		check!(need == (n + cap - 1) / cap, "segments required = ceil(leaves / capacity)");
+		check!((need - 1) * cap < n && n <= need * cap, "the last required segment is the one holding the last leaf");
+		let k: u64 = nd::any();
+		nd::assume(k < (1 << 20));
+		let l = k * cap;
+		check!(SegmentIdentifier::pmmr_size(k as usize, h) == 2 * l - l.count_ones() as u64, "pmmr_size = size of the MMR holding k full segments");
+		let o = idx * cap;
+		if o < n {
+			let (first, last) = id.segment_pos_range(size);
+			check!(first == 2 * o - o.count_ones() as u64, "first position = position of the segment's first leaf");
+			if o + cap <= n {
+				check!(last == first + 2 * cap - 2, "a full segment ends at the root of its perfect subtree");
+				cover!(h >= 2 && idx >= 1, "full segment of height >= 2 past the first");
+			} else {
+				check!(last == size - 1, "the partial last segment runs to the end of the MMR");
+				cover!(h >= 2 && idx >= 1, "partial last segment");
+			}
+			check!(first <= last && last < size, "inside the MMR");
+		}
+	}
+}
+
+const HPOS: u64 = parse_env(option_env!("VH_HPOS"), 6);
+
+proof! {
+	[hash_mix, rand, bitmap] fn pruned_segment_parent_covers_only_spent_leaves() {
+		// a segment whose own leaves are all spent and which carries a single hash at an ANCESTOR
+		// of its root (what a compacted serving node sends): first_unpruned_parent - the hash
+		// validate() checks the proof against - accepts that ancestor exactly when NO leaf under
+		// it is unspent in the bitmap; an unspent leaf anywhere under it (leftmost, middle,
+		// rightmost) means a leaf the bitmap marks unspent was omitted, and must be refused
+		let id = SegmentIdentifier { height: H, idx: IDX };
+		let hb: [u8; 32] = nd::any();
+		let h = Hash::from_vec(&hb);
+		let seg = Segment::<Elem>::from_parts(id, vec![HPOS], vec![h], vec![], vec![], proof_from(vec![]));
+		let mask: u16 = nd::any();
+		nd::assume((mask as u64) < (1u64 << NL));
+		let mut bm = croaring::Bitmap::new();
+		let mut i = 0;
+		while i < NL {
+			if mask >> i & 1 == 1 {
+				bm.add(i as u32);
+			}
+			i += 1;
+		}
+		// leaves under HPOS, from the MMR definition: the subtree rooted at a position of height
+		// g spans 2^g consecutive leaves ending at the leaf just before ... counted by positions
+		let g = pmmr::bintree_postorder_height(HPOS);
+		let leftmost_pos = HPOS + 2 - (2u64 << g);
+		// leaf index of a leaf position p: number of leaf positions before it
+		let mut first_leaf = 0u64;
+		let mut n = 0u64;
+		while n < NL as u64 {
+			if 2 * n - n.count_ones() as u64 == leftmost_pos {
+				first_leaf = n;
+			}
+			n += 1;
+		}
+		let mut under: u16 = 0;
+		let mut k = 0u64;
+		while k < (1u64 << g) {
+			if first_leaf + k < NL as u64 {
+				under |= 1 << (first_leaf + k);
+			}
+			k += 1;
+		}
+		let r = seg.first_unpruned_parent(SIZE, Some(&bm));
+		let seg_first = (IDX << H) as usize;
+		let seg_mask = (((1u32 << (1usize << H)) - 1) << seg_first) as u16;
+		if mask & seg_mask == 0 {
+			// the segment itself is fully spent: the only usable hash is the ancestor's
+			match &r {
+				Ok((rh, pos1)) => {
+					check!(*pos1 == HPOS + 1 && *rh == h, "the hash returned is the one supplied for that ancestor");
+					check!(mask & under == 0, "an ancestor hash is accepted only if every leaf under it is spent");
+				}
+				Err(_) => check!(mask & under != 0, "a fully spent subtree is represented by its root hash"),
+			}
+		} else {
+			check!(r.is_err(), "unspent leaves of the segment without their data are refused");
+		}
+		cover!(r.is_ok(), "ancestor accepted");
+		cover!(mask & seg_mask == 0 && (mask & under).count_ones() == 1, "exactly one leaf under the ancestor is unspent");
+		cover!(mask & seg_mask == 0 && mask & under != 0 && r.is_err(), "ancestor refused");
+		core::mem::forget(r);
+		core::mem::forget(seg);
+		core::mem::forget(bm);
+	}
+}
+
 pub const HARNESSES: &[(&str, fn())] = &[
 	("c16::segment_prunable_uncompacted_complete", segment_prunable_uncompacted_complete),
 	("c16::segment_complete", segment_complete),
 	("c16::segment_sound", segment_sound),
+	("c16::pruned_segment_parent_covers_only_spent_leaves", pruned_segment_parent_covers_only_spent_leaves),
+	("c16::segment_identifier_arithmetic", segment_identifier_arithmetic),
 ];
